@@ -38,17 +38,20 @@ func (a iv) add(c int64) iv {
 }
 
 type splitState struct {
-	atEOF  int // -1 unknown, 0 false, 1 true
-	lenIv  iv
-	val    map[ssa.Value]iv // bounds of integer values
-	diff   map[ssa.Value]iv // bounds of len(data) - v
-	absent []string         // look-ahead bytes known missing on this path
-	path   []*ssa.BasicBlock
-	havoc  map[ssa.Value]bool // loop-header phis standing for "after any number of trips"
+	atEOF     int // -1 unknown, 0 false, 1 true
+	lenIv     iv
+	val       map[ssa.Value]iv // bounds of integer values
+	diff      map[ssa.Value]iv // bounds of len(data) - v
+	absent    []string         // look-ahead bytes known missing on this path
+	path      []*ssa.BasicBlock
+	havoc     map[ssa.Value]bool // loop-header phis standing for "after any number of trips"
+	wrote     string             // position of a store to captured state on this path
+	wroteTo   map[ssa.Value]bool // the captured variables stored to on this path
+	absentBlk []*ssa.BasicBlock  // guard blocks of the absent look-aheads (parallel to absent)
 }
 
 func (s *splitState) clone() *splitState {
-	n := &splitState{atEOF: s.atEOF, lenIv: s.lenIv, val: map[ssa.Value]iv{}, diff: map[ssa.Value]iv{}, havoc: map[ssa.Value]bool{}}
+	n := &splitState{atEOF: s.atEOF, lenIv: s.lenIv, val: map[ssa.Value]iv{}, diff: map[ssa.Value]iv{}, havoc: map[ssa.Value]bool{}, wrote: s.wrote}
 	for k := range s.havoc {
 		n.havoc[k] = true
 	}
@@ -59,6 +62,11 @@ func (s *splitState) clone() *splitState {
 		n.diff[k] = v
 	}
 	n.absent = append([]string{}, s.absent...)
+	n.absentBlk = append([]*ssa.BasicBlock{}, s.absentBlk...)
+	n.wroteTo = map[ssa.Value]bool{}
+	for k := range s.wroteTo {
+		n.wroteTo[k] = true
+	}
 	n.path = append([]*ssa.BasicBlock{}, s.path...)
 	return n
 }
@@ -89,6 +97,7 @@ type splitAnalysis struct {
 	sites     []*lookahead // guarded look-ahead index sites
 	probs     []string
 	undecided string
+	na        *NilAnalysis
 	nPaths    int
 	nRet      int
 }
@@ -216,8 +225,7 @@ func (a *splitAnalysis) refine(s *splitState, cond ssa.Value, taken bool) bool {
 		switch {
 		case a.isLenData(lx) && !a.isLenData(ry):
 			// len + lk op y + rk  ⇒  len - y op rk - lk ; if y is a constant: len op const
-			if yc, ok := ry.(*ssa.Const); ok && yc.Value != nil && yc.Value.Kind() == constant.Int {
-				n, _ := constant.Int64Val(yc.Value)
+			if n, ok := a.constOf(ry); ok {
 				s.lenIv = s.lenIv.meet(cmpIv(op, n+rk-lk, s.lenIv))
 				return !s.lenIv.empty()
 			}
@@ -253,8 +261,7 @@ func (a *splitAnalysis) refineSwapped(s *splitState, op token.Token, lx ssa.Valu
 	if !ok {
 		return true
 	}
-	if xc, ok := lx.(*ssa.Const); ok && xc.Value != nil && xc.Value.Kind() == constant.Int {
-		n, _ := constant.Int64Val(xc.Value)
+	if n, ok := a.constOf(lx); ok {
 		s.lenIv = s.lenIv.meet(cmpIv(op2, n+lk-rk, s.lenIv))
 		return !s.lenIv.empty()
 	}
@@ -560,6 +567,19 @@ func (a *splitAnalysis) walk(b *ssa.BasicBlock, s *splitState) {
 		return
 	}
 	s.path = append(s.path, b)
+	for _, ins := range b.Instrs {
+		if st, ok := ins.(*ssa.Store); ok {
+			if _, isFV := st.Addr.(*ssa.FreeVar); isFV {
+				if s.wrote == "" {
+					s.wrote = a.p.Pos(st.Pos())
+				}
+				if s.wroteTo == nil {
+					s.wroteTo = map[ssa.Value]bool{}
+				}
+				s.wroteTo[st.Addr] = true
+			}
+		}
+	}
 	last := b.Instrs[len(b.Instrs)-1]
 	switch t := last.(type) {
 	case *ssa.Return:
@@ -572,6 +592,19 @@ func (a *splitAnalysis) walk(b *ssa.BasicBlock, s *splitState) {
 			if !a.refine(ns, t.Cond, i == 0) {
 				continue
 			}
+			// bytes.HasPrefix(data, K) looks len(K) bytes ahead: when it fails while fewer than len(K)
+			// bytes have arrived and more may come, nothing has been learnt yet
+			if k, ok := a.prefixGuard(t.Cond); ok {
+				if i == 0 {
+					ns.lenIv = ns.lenIv.meet(iv{k, ivAll.hi})
+					if ns.lenIv.empty() {
+						continue
+					}
+				} else if ns.lenIv.lo < k {
+					ns.absent = append(ns.absent, fmt.Sprintf("data[:%d] (prefix test at %s)", k, a.p.Pos(t.Cond.Pos())))
+					ns.absentBlk = append(ns.absentBlk, b)
+				}
+			}
 			// is this edge the "absent" edge of a look-ahead guard?
 			for _, site := range a.sites {
 				other := b.Succs[1-i]
@@ -580,6 +613,7 @@ func (a *splitAnalysis) walk(b *ssa.BasicBlock, s *splitState) {
 					// iff the state allows len - base ≤ k
 					if ns.getDiff(site.base).lo <= site.k && guardMentions(t.Cond, site.base, a) {
 						ns.absent = append(ns.absent, fmt.Sprintf("data[%s+%d] (guard at %s)", site.base.Name(), site.k, a.p.Pos(t.Cond.Pos())))
+						ns.absentBlk = append(ns.absentBlk, b)
 					}
 				}
 			}
@@ -618,6 +652,21 @@ func (a *splitAnalysis) checkReturn(r *ssa.Return, s *splitState) {
 		if !(tokNil && advIv.lo == 0 && advIv.hi == 0 && isNilConst(errv)) {
 			a.probs = append(a.probs, fmt.Sprintf("on a path where the look-ahead byte %s has not arrived and atEOF is not known to be true, the return at %s delivers a token/advance instead of requesting more data (0, nil, nil): the result depends on how the stream is chunked", strings.Join(s.absent, ", "), pos))
 		}
+	}
+	// a look-ahead that is only attempted while the captured state has a certain value, found absent
+	// on this path, after which the state was changed: the next call will not attempt it again
+	stateGuarded := false
+	for _, gb := range s.absentBlk {
+		for _, dc := range dominatingConds(gb) {
+			for fv := range s.wroteTo {
+				if derivesFromLoadOf(dc.cond, fv, 0) {
+					stateGuarded = true
+				}
+			}
+		}
+	}
+	if s.wrote != "" && stateGuarded && s.atEOF != 1 && tokNil && advIv.lo == 0 && advIv.hi == 0 && isNilConst(errv) {
+		a.probs = append(a.probs, fmt.Sprintf("the return at %s asks for more data because %s has not arrived, but the captured state was already changed at %s: the next call sees the same bytes and more, yet takes another path, so the result depends on how the stream is chunked", pos, strings.Join(s.absent, ", "), s.wrote))
 	}
 	if !tokNil && isNilConst(errv) && advIv.lo < 1 {
 		a.probs = append(a.probs, fmt.Sprintf("return at %s delivers a token but advance ≥ 1 cannot be established on this path (bufio panics after 100 empty tokens without progress)", pos))
@@ -675,4 +724,75 @@ func ruleSplitFunc(p *Prog, l *Ledger, tier string) {
 		}
 	}
 	l.Min(rule, n, 1)
+}
+
+// prefixGuard: cond is bytes.HasPrefix(data, K) with K of known constant length.
+func (a *splitAnalysis) prefixGuard(cond ssa.Value) (int64, bool) {
+	c, ok := cond.(*ssa.Call)
+	if !ok {
+		return 0, false
+	}
+	sc := c.Call.StaticCallee()
+	if sc == nil || sc.String() != "bytes.HasPrefix" || c.Call.Args[0] != ssa.Value(a.data) {
+		return 0, false
+	}
+	switch k := c.Call.Args[1].(type) {
+	case *ssa.UnOp:
+		if g, ok := k.X.(*ssa.Global); ok {
+			if a.na == nil {
+				a.na = NewNilAnalysis(a.p)
+			}
+			if n, ok := a.na.globalLen(g); ok {
+				return n, true
+			}
+		}
+	case *ssa.Convert:
+		if s, ok := constStr(k.X); ok {
+			return int64(len(s)), true
+		}
+	}
+	return 0, false
+}
+
+// constOf: an integer constant, or the length of a package-level slice of constant length.
+func (a *splitAnalysis) constOf(v ssa.Value) (int64, bool) {
+	if c, ok := constInt(v); ok {
+		return c, true
+	}
+	if c, ok := v.(*ssa.Call); ok {
+		if bi, ok := c.Call.Value.(*ssa.Builtin); ok && bi.Name() == "len" {
+			if u, ok := c.Call.Args[0].(*ssa.UnOp); ok {
+				if g, ok := u.X.(*ssa.Global); ok {
+					if a.na == nil {
+						a.na = NewNilAnalysis(a.p)
+					}
+					return a.na.globalLen(g)
+				}
+			}
+		}
+	}
+	return 0, false
+}
+
+// derivesFromLoadOf: v is computed from a load of address addr (through negation / comparison with a constant).
+func derivesFromLoadOf(v ssa.Value, addr ssa.Value, depth int) bool {
+	if depth > 4 {
+		return false
+	}
+	switch x := v.(type) {
+	case *ssa.UnOp:
+		if x.Op == token.MUL {
+			return x.X == addr
+		}
+		return derivesFromLoadOf(x.X, addr, depth+1)
+	case *ssa.BinOp:
+		return derivesFromLoadOf(x.X, addr, depth+1) || derivesFromLoadOf(x.Y, addr, depth+1)
+	case *ssa.Phi:
+		for _, e := range x.Edges {
+			if derivesFromLoadOf(e, addr, depth+1) {
+				return true
+			}
+		}
+	}
+	return false
 }
